@@ -73,6 +73,8 @@ func allocsOf(fn *ssa.Function, typ string) []*ssa.Alloc {
 
 func runC12(c *Ctx) {
 	p := c.P
+	// shared rule: an object counts as present only together with its size (rules_c09.go)
+	objectPresenceRule(c, "R7", getStoreFlow(p))
 	rw := p.Fn("git/githistory", "(*Rewriter).Rewrite")
 	rt := p.Fn("git/githistory", "(*Rewriter).rewriteTree")
 	if rw == nil || rt == nil {
